@@ -10,13 +10,26 @@ PROP = "C09"
 NAMES = ("no_list_1_three_phase", "no_list_2_single_phase", "no_list_2_three_phase", "no_list_1_single_phase_real_sample", "no_list_2_single_phase_real_sample", "se_list_real_sample")
 
 
-def path_for(label, octets, ct, pads):
+def ct_variant(octets, ct):
+    """concrete copy of a list whose meter type number starts with 685 (CT meter) or 684"""
+    o = list(octets)
+    pos = CR.split_frame(o)[1]
+    root = CR.walk(o, pos, greedy=True)
+    items = [k for k in root.children if k.kind != "null"]
+    for ob, v in zip(items[1::2], items[2::2]):
+        if CR.cde(o[ob.vstart:ob.end]) == "96.1.1":
+            o[v.vstart:v.vstart + 3] = list(b"685" if ct else b"684")
+    return o
+
+
+def path_for(label, octets, ct, pads, history=False):
     def path(eng, ctx):
         o = list(octets)
+        before = [ct_variant(octets, not ct), ct_variant(octets, ct), ct_variant(octets, not ct)] if history else ()
         if pads:
             o = D.kamstrup_pad(o, CR.split_frame(o)[1], pads)
-        o = D.make_holes(eng, o, "kamstrup", "frame", free_clocks=False, ct=ct)
-        D.decode_and_compare(eng, ctx, "kamstrup", o, "frame", label)
+        o = D.make_holes(eng, o, "kamstrup", "frame", free_clocks=True, ct=ct)
+        D.decode_and_compare(eng, ctx, "kamstrup", o, "frame", label, before=before)
     return path
 
 
@@ -32,7 +45,13 @@ def scenarios(tier):
                     continue
                 out.append(Scenario(f"kamstrup {name} ct={ct} padding={pads}: all registers and texts free", path_for(name, o, ct, pads),
                                     bounds={"layout": name, "meter_type": "free digits/letters, first three " + ("== 685 (CT meter)" if ct else "!= 685"), "null_padding_after_elements": pads or "as captured",
-                                            "free": "every octet of every register, every text character"}, domains=("decoders",), frontier=3, workers=4, assumptions=A, replay_cap=40))
+                                            "free": "every octet of every register, every text character, every date-time (APDU clock and list clock independently)"}, domains=("decoders",), engine_opts={"slicing": True}, frontier=3, workers=4, assumptions=A, replay_cap=40))
+    for name in (("no_list_2_three_phase",) if q else NAMES):
+        o = D.fixture("kamstrup", name)
+        for ct in (False, True):
+            out.append(Scenario(f"kamstrup {name} ct={ct} after lists of the other meter kind were decoded in the same process", path_for(name, o, ct, None, history=True),
+                                bounds={"layout": name, "history": "a list of the opposite kind (CT / direct), one of the same kind, one of the opposite kind decoded first", "free": "as above"},
+                                domains=("decoders",), engine_opts={"slicing": True}, frontier=3, workers=4, assumptions=A, replay_cap=40))
     return out
 
 
